@@ -85,12 +85,15 @@ variable {R : Type}
 /-- `tensor[:, c]` -/
 def colOf (x : List (List Int)) (c : Nat) : List Int := x.map (·.getD c (-1))
 
+/-- `column_data[nan_mask] = 0` for one entry -/
+def fixNeg (v : Int) : Int := if v < 0 then 0 else v
+
 /-- `_replace_nans(x, NAStrategy.MOST_FREQUENT)` on the categorical index tensor (`ncols = x.size(1)`):
     a column whose entries are all missing raises (also when there is no row: `nan_mask.all()` of an
     empty mask is true); otherwise a missing entry becomes category `0`, the most frequent one. -/
 def replaceNans (x : List (List Int)) (ncols : Nat) : Option (List (List Int)) :=
   if (List.range ncols).any (fun c => (colOf x c).all (· < 0)) then none
-  else some (x.map (·.map fun v => if v < 0 then 0 else v))
+  else some (x.map (·.map fixNeg))
 
 def sumR (ops : FOps R) (xs : List R) : R := xs.foldl ops.add ops.zero
 
@@ -150,10 +153,8 @@ def fit (ops : FOps R) (fr : Frame R) (colStats : List (String × List Nat)) (st
             match colStats.lookup (fr.catNames.getD i "") with
             | none => false
             | some count => (colOf tensor i).all fun c => decide (c.toNat < count.length)
-          if !(List.range fr.catNames.length).all colOk then none
-          -- `copy.copy(col_stats[col])` for the numerical columns
-          else if !fr.numNames.all (statKeys.contains ·) then none
-          else
+          -- ... and `copy.copy(col_stats[col])` for the numerical columns needs their statistics
+          if (List.range fr.catNames.length).all colOk && fr.numNames.all (statKeys.contains ·) then
             let columns := fr.catNames.flatMap fun c => (List.range (K - 1)).map (genName c)
             some (.fitted {
               colStats := colStats
@@ -162,6 +163,7 @@ def fit (ops : FOps R) (fr : Frame R) (colStats : List (String × List Nat)) (st
               targetMean := mean
               newColumns := columns
               statsKeys := (fr.numNames ++ columns).foldl insertKey [] })
+          else none
 
 /-! ### `_forward` (the code after `b25a0f3`) -/
 
@@ -235,7 +237,7 @@ def transformOld (ops : FOps R) (st : State R) (fr : Frame R) : Option (Frame R)
     every non-reference class the estimate `(count + prior) / (N + 1)`, missing category ↦ category 0 -/
 def rowSpec (ops : FOps R) (f : Fitted R) (catNames : List String) (row : Row R) : Row R :=
   { num := row.num ++ (catNames.zip row.cat).flatMap fun (name, c) =>
-      estimate ops ((f.colStats.lookup name).getD []) f.targetMean f.dataSize (if c < 0 then 0 else c)
+      estimate ops ((f.colStats.lookup name).getD []) f.targetMean f.dataSize (fixNeg c)
     cat := [] }
 
 /-! ### `state_dict` / `load_state_dict` (`self.__dict__` / `self.__dict__.update`) -/
